@@ -991,7 +991,8 @@ CONJ_RULES = ['leftscal', 'rightscal', 'rightvec', 'scalarsum', 'translated',
               'leftscal', 'rightscal', 'translated', 'quadperturb0']
 GRAD_RULES = ['leftscal', 'rightscal', 'rightvec', 'scalarsum', 'translated',
               'quadperturb', 'sum', 'comp', 'product', 'quotient', 'bregman',
-              'moreau', 'comp', 'sum', 'rightscal', 'quadperturb']
+              'moreau', 'comp', 'sum', 'rightscal', 'quadperturb', 'comp',
+              'comp']
 
 
 @st.composite
@@ -1002,9 +1003,12 @@ def op_descs(draw, sd, n, top):
     if sk in ('rn', 'discr'):
         kinds += ['ufunc', 'ufunc', 'power', 'matrix_same', 'ufunc_matrix']
         if top and sd['kind'] == 'tensor':
-            kinds += ['matrix', 'matrix']
-        if sd['kind'] == 'discr' and top:
-            kinds += ['gradient']
+            kinds += ['matrix'] * 4
+        if sd['kind'] == 'discr' and top and min(sd['shape']) >= 2:
+            kinds += ['gradient'] * 6
+        if sd['kind'] == 'tensor' and len(sd['shape']) == 1 and \
+                sd.get('weighting') is None:
+            kinds += ['ufunc_matrix']
     k = draw(st.sampled_from(kinds))
     if k == 'scaling':
         return {'kind': 'scaling', 's': draw(scal_nz())}, sd
@@ -1044,9 +1048,9 @@ def op_descs(draw, sd, n, top):
             return {'kind': 'scaling', 's': draw(scal_nz())}, sd
         m = draw(st.integers(1, 4))
         rsd = draw(flat_space_descs(min_size=m, max_size=m,
+                                    dtypes=(sd['dtype'],),
                                     kinds=('rn', 'rn', 'rn_const',
                                            'rn_array')))
-        rsd['dtype'] = sd['dtype']
         M = draw(st.lists(mvals, min_size=n * m, max_size=n * m))
         return {'kind': 'matrix', 'M': np.asarray(M).reshape(m, n).tolist(),
                 'ran': rsd}, rsd
